@@ -114,6 +114,7 @@ Definition in_fragment_F3 (tables : list (list ast)) : bool :=
   end.
 
 Definition tscope_ok (x : titem) : Prop := match x with TItem _ => True | TScope _ _ d _ => 1 <= d <= 5 end.
+Definition tshape (x : titem) : bool := match x with TItem it => shape_ok it | TScope _ _ _ body => forallb shape_ok body end.
 
 Lemma scope_target_eq nm root d : scope_target nm = Some (root, d) -> nm = sc_name root (dseg d) /\ 1 <= d <= 5.
 Proof.
@@ -128,45 +129,48 @@ Proof.
   destruct (N.eqb_spec s (dseg 5)) as [->|_]; [intros E; inversion E; split; [reflexivity|lia]|]. discriminate.
 Qed.
 
-Lemma f3_titem_ast a x : f3_titem a = Some x -> a = titem_ast x /\ tscope_ok x.
+Lemma f3_titem_ast a x : f3_titem a = Some x -> a = titem_ast x /\ tscope_ok x /\ tshape x = true.
 Proof.
-  assert (Hgen : match f2_item a with Some it => Some (TItem it) | None => None end = Some x -> a = titem_ast x /\ tscope_ok x).
-  { destruct (f2_item a) as [it|] eqn:Ei; [|discriminate]. intros E; inversion E. split; [apply f2_item_ast; exact Ei|exact I]. }
+  assert (Hgen : match f2_item a with Some it => Some (TItem it) | None => None end = Some x -> a = titem_ast x /\ tscope_ok x /\ tshape x = true).
+  { destruct (f2_item a) as [it|] eqn:Ei; [|discriminate]. intros E; inversion E. destruct (f2_item_ast a it Ei) as (A & B). split; [exact A|split; [exact I|exact B]]. }
   destruct a; try exact Hgen. clear Hgen. cbn [f3_titem].
   destruct (scope_target nm) as [[root d]|] eqn:En; [|discriminate]. destruct (f2_items body) as [b|] eqn:Eb; [|discriminate].
-  intros E; inversion E. destruct (scope_target_eq _ _ _ En) as (-> & Hd). cbn [titem_ast tscope_ok].
-  rewrite (f2_items_ast _ _ Eb). split; [reflexivity|exact Hd].
+  intros E; inversion E. destruct (scope_target_eq _ _ _ En) as (-> & Hd). cbn [titem_ast tscope_ok tshape].
+  destruct (f2_items_ast _ _ Eb) as (-> & Hs). split; [reflexivity|split; [exact Hd|exact Hs]].
 Qed.
 
-Lemma f3_titems_ast : forall p ts, f3_titems p = Some ts -> p = map titem_ast ts /\ Forall tscope_ok ts.
+Lemma f3_titems_ast : forall p ts, f3_titems p = Some ts -> p = map titem_ast ts /\ Forall tscope_ok ts /\ forallb tshape ts = true.
 Proof.
   induction p as [|x t IH]; intros ts Hp; cbn [f3_titems] in Hp.
-  - inversion Hp. split; [reflexivity|constructor].
+  - inversion Hp. split; [reflexivity|split; [constructor|reflexivity]].
   - destruct (f3_titem x) as [i|] eqn:Ei; [|discriminate]. destruct (f3_titems t) as [r|] eqn:Er; [|discriminate].
-    inversion Hp; subst ts. cbn [map]. destruct (f3_titem_ast x i Ei) as (-> & Hi). destruct (IH r eq_refl) as (-> & Hr).
-    split; [reflexivity|constructor; assumption].
+    inversion Hp; subst ts. cbn [map forallb]. destruct (f3_titem_ast x i Ei) as (-> & Hi & Hsi). destruct (IH r eq_refl) as (-> & Hr & Hsr).
+    rewrite Hsi, Hsr. split; [reflexivity|split; [constructor; assumption|reflexivity]].
 Qed.
 
 (** ---- encoding ---- *)
-Lemma encode_body body : flat_map encode (map item_ast body) = enc_items body.
+Lemma encode_body body : forallb shape_ok body = true -> flat_map encode (map item_ast body) = enc_items body.
 Proof. apply encode_items. Qed.
 
-Lemma encode_titem x : encode (titem_ast x) = enc_titem x.
+Lemma encode_titem x : tshape x = true -> encode (titem_ast x) = enc_titem x.
 Proof.
-  destruct x as [it|k root d body]; [apply encode_item|].
-  cbn [titem_ast encode enc_titem]. unfold enc_pkg, sc_body. rewrite encode_body. reflexivity.
+  destruct x as [it|k root d body]; intros Hs; [apply encode_item; exact Hs|].
+  cbn [titem_ast encode enc_titem]. unfold enc_pkg, sc_body. rewrite (encode_body body Hs). reflexivity.
 Qed.
 
-Lemma encode_titems ts : encode_table (map titem_ast ts) = enc_titems ts.
-Proof. unfold encode_table, enc_titems. induction ts as [|x t IH]; [reflexivity|]. cbn [map flat_map]. rewrite encode_titem, IH. reflexivity. Qed.
+Lemma encode_titems ts : forallb tshape ts = true -> encode_table (map titem_ast ts) = enc_titems ts.
+Proof.
+  unfold encode_table, enc_titems. induction ts as [|x t IH]; intros Hs; [reflexivity|]. cbn [forallb] in Hs. apply andb_prop in Hs. destruct Hs as [Hx Ht].
+  cbn [map flat_map]. rewrite (encode_titem x Hx), (IH Ht). reflexivity.
+Qed.
 
 (** ---- well-formedness ---- *)
-Lemma wf_titem e ms x : tscope_ok x -> wf_ast e ms [] (titem_ast x) = true -> titem_okb x = true.
+Lemma wf_titem e ms x : tshape x = true -> tscope_ok x -> wf_ast e ms [] (titem_ast x) = true -> titem_okb x = true.
 Proof.
-  destruct x as [it|k root d body]; intros Hd Hw; [apply (wf_item e ms it [] Hw)|].
-  cbn [tscope_ok] in Hd. cbn [titem_ast wf_ast] in Hw. cbn [titem_okb].
+  destruct x as [it|k root d body]; intros Hs Hd Hw; [apply (wf_item e ms it [] Hs Hw)|].
+  cbn [tscope_ok] in Hd. cbn [tshape] in Hs. cbn [titem_ast wf_ast] in Hw. cbn [titem_okb].
   apply andb_prop in Hw. destruct Hw as [Hw Hall]. apply andb_prop in Hw. destruct Hw as [_ Hk].
-  rewrite sumlen_eq, encode_body in Hk.
+  rewrite sumlen_eq, (encode_body body Hs) in Hk.
   apply andb_true_intro. split; [apply andb_true_intro; split; [apply andb_true_intro; split|]|].
   - apply N.leb_le. lia.
   - apply N.leb_le. lia.
@@ -174,31 +178,54 @@ Proof.
   - destruct (lookup e [] (sc_name root (dseg d))) as [sc|]; [|discriminate].
     match type of Hall with ?all _ _ = true => set (ALL := all) in Hall end. clear Hk.
     induction body as [|y t IHt]; [reflexivity|]. cbn [map] in Hall. cbn in Hall. apply andb_prop in Hall. destruct Hall as [Hy Ht].
-    cbn [forallb]. rewrite (wf_item e ms y sc Hy). apply IHt. exact Ht.
+    cbn [forallb] in Hs. apply andb_prop in Hs. destruct Hs as [Hsy Hst].
+    cbn [forallb]. rewrite (wf_item e ms y sc Hsy Hy). apply IHt; assumption.
 Qed.
 
-Lemma wf_titems e ms ts : Forall tscope_ok ts -> forallb (wf_ast e ms []) (map titem_ast ts) = true -> forallb titem_okb ts = true.
+Lemma wf_titems e ms ts : forallb tshape ts = true -> Forall tscope_ok ts -> forallb (wf_ast e ms []) (map titem_ast ts) = true -> forallb titem_okb ts = true.
 Proof.
-  induction ts as [|x t IH]; intros Hd Hw; [reflexivity|]. cbn [map forallb] in Hw |- *. apply andb_prop in Hw. destruct Hw as [Hx Ht].
-  rewrite (wf_titem e ms x (Forall_inv Hd) Hx), (IH (Forall_inv_tail Hd) Ht). reflexivity.
+  induction ts as [|x t IH]; intros Hs Hd Hw; [reflexivity|]. cbn [map forallb] in Hs, Hw |- *. apply andb_prop in Hw. destruct Hw as [Hx Ht].
+  apply andb_prop in Hs. destruct Hs as [Hsx Hst].
+  rewrite (wf_titem e ms x Hsx (Forall_inv Hd) Hx), (IH Hst (Forall_inv_tail Hd) Ht). reflexivity.
 Qed.
 
 (** ---- the specification side ---- *)
-Lemma entries_titem e x : (forall d, 1 <= d <= 5 -> env_mem e [dseg d] = true) -> tscope_ok x ->
+Lemma entries_titem e x : (forall d, 1 <= d <= 5 -> env_mem e [dseg d] = true) -> tshape x = true -> tscope_ok x ->
   entries e [] (titem_ast x) = sentries3 [x].
 Proof.
-  intros He Hd. unfold sentries3. cbn [flat_map]. rewrite app_nil_r.
-  destruct x as [it|k root d body]; [apply entries_item|].
-  cbn [tscope_ok] in Hd. cbn [titem_ast entries]. rewrite (lookup_sc e root (dseg d) (He d Hd)).
+  intros He Hs Hd. unfold sentries3. cbn [flat_map]. rewrite app_nil_r.
+  destruct x as [it|k root d body]; [apply entries_item; exact Hs|].
+  cbn [tscope_ok] in Hd. cbn [tshape] in Hs. cbn [titem_ast entries]. rewrite (lookup_sc e root (dseg d) (He d Hd)).
   unfold sentries. generalize [dseg d]. intros sc. induction body as [|y t IHt]; [reflexivity|]. cbn [map flat_map].
-  rewrite entries_item, IHt. reflexivity.
+  cbn [forallb] in Hs. apply andb_prop in Hs. destruct Hs as [Hsy Hst].
+  rewrite (entries_item e y sc Hsy), (IHt Hst). reflexivity.
 Qed.
 
-Lemma entries_titems e ts : (forall d, 1 <= d <= 5 -> env_mem e [dseg d] = true) -> Forall tscope_ok ts ->
+Lemma entries_titems e ts : (forall d, 1 <= d <= 5 -> env_mem e [dseg d] = true) -> forallb tshape ts = true -> Forall tscope_ok ts ->
   flat_map (entries e []) (map titem_ast ts) = sentries3 ts.
 Proof.
-  intros He. induction ts as [|x t IH]; intros Hd; [reflexivity|]. cbn [map flat_map].
-  rewrite (entries_titem e x He (Forall_inv Hd)), (IH (Forall_inv_tail Hd)). unfold sentries3. cbn [flat_map]. rewrite app_nil_r. reflexivity.
+  intros He. induction ts as [|x t IH]; intros Hs Hd; [reflexivity|]. cbn [map flat_map].
+  cbn [forallb] in Hs. apply andb_prop in Hs. destruct Hs as [Hsx Hst].
+  rewrite (entries_titem e x He Hsx (Forall_inv Hd)), (IH Hst (Forall_inv_tail Hd)). unfold sentries3. cbn [flat_map]. rewrite app_nil_r. reflexivity.
+Qed.
+
+(** the core: any table of top-level items of the right shape *)
+Theorem parse_encode_titems ts :
+  forallb tshape ts = true -> Forall tscope_ok ts -> wf_program [map titem_ast ts] = true ->
+  lenN (encode_table (map titem_ast ts)) < 0x10000000 -> parse_encode_statement [map titem_ast ts].
+Proof.
+  intros Hs Hd Hwf Hfr.
+  unfold wf_program in Hwf. cbn [wf_tables app] in Hwf. apply andb_prop in Hwf. destruct Hwf as [Hwf _].
+  pose proof (wf_titems _ _ ts Hs Hd Hwf) as Hok.
+  rewrite (encode_titems ts Hs) in Hfr.
+  unfold parse_encode_statement, parse_program, load. cbn [map].
+  destruct default_rep as (t0 & Et0 & H0). rewrite Et0. cbn [load_tables]. rewrite (encode_titems ts Hs).
+  destruct (parse_f3 ts t0 Hok Hfr H0) as (s' & gF & plF & Eparse & HF & DF & Etb).
+  rewrite Eparse. cbn [load_tables app]. change (0 =? 0) with true. cbv iota.
+  rewrite (view_f3 (p_tree s') gF plF HF _ ts DF Hok).
+  unfold ns. cbn [flat_map]. rewrite app_nil_r.
+  rewrite (entries_titems _ ts (fun d Hd' => resolve_env_default _ d Hd') Hs Hd).
+  f_equal. apply sort_perm. apply view3_perm. exact Hok.
 Qed.
 
 (** THE THEOREM for the fragment F3 *)
@@ -208,16 +235,6 @@ Proof.
   intros tables Hwf Hfr. unfold in_fragment_F3 in Hfr.
   destruct tables as [|p [|p2 rest]]; try discriminate.
   destruct (f3_titems p) as [ts|] eqn:Ets; [|discriminate]. apply N.ltb_lt in Hfr.
-  destruct (f3_titems_ast p ts Ets) as (-> & Hd).
-  unfold wf_program in Hwf. cbn [wf_tables app] in Hwf. apply andb_prop in Hwf. destruct Hwf as [Hwf _].
-  pose proof (wf_titems _ _ ts Hd Hwf) as Hok.
-  rewrite encode_titems in Hfr.
-  unfold parse_encode_statement, parse_program, load. cbn [map].
-  destruct default_rep as (t0 & Et0 & H0). rewrite Et0. cbn [load_tables]. rewrite encode_titems.
-  destruct (parse_f3 ts t0 Hok Hfr H0) as (s' & gF & plF & Eparse & HF & DF & Etb).
-  rewrite Eparse. cbn [load_tables app]. change (0 =? 0) with true. cbv iota.
-  rewrite (view_f3 (p_tree s') gF plF HF _ ts DF Hok).
-  unfold ns. cbn [flat_map]. rewrite app_nil_r.
-  rewrite (entries_titems _ ts (fun d Hd' => resolve_env_default _ d Hd') Hd).
-  f_equal. apply sort_perm. apply view3_perm. exact Hok.
+  destruct (f3_titems_ast p ts Ets) as (-> & Hd & Hs).
+  apply parse_encode_titems; assumption.
 Qed.
